@@ -50,7 +50,13 @@ Vars == [ints  |-> <<I(1), I(2), I(2), I(3)>>,
          big   |-> <<I(2147483647)>>,
          min   |-> <<I(-2147483647 - 1)>>,
          half  |-> <<DItem(DMake(FALSE, <<6475, 7483, 214>>, -1))>>,       \* 2147483647.5
-         neg   |-> <<I(-4)>>]
+         neg   |-> <<I(-4)>>,
+         \* Booleans (the other inputs flip a single Boolean: a compiled `%tt and x` reused with the opposite binding)
+         tt    |-> <<B(TRUE)>>,
+         ff    |-> <<B(FALSE)>>,
+         tf    |-> <<B(TRUE), B(FALSE)>>,
+         \* the replacement character itself (a genuine code point, 3 bytes; decoders return it for invalid input too)
+         repl  |-> <<S(<<65533>>), S(<<97, 65533, 98>>), S(<<65533, 65533>>), S(<<65532, 65533, 65534>>)>>]
 Env == [forest |-> Forest, sch |-> Sch, vars |-> Vars, kinds |-> Kinds]
 
 (* The OTHER inputs: every compiled program is evaluated a second time, reused, on the twin patient MR4 alone and with  *)
@@ -190,7 +196,8 @@ StrPeers == {Fld(Obn, "status"), Ix(Fld(Fld(Obn, "component"), "value"), 6), Ix(
 DtPeers  == {Fld(Obn, "issued"), Ix(Fld(Fld(Obn, "component"), "value"), 5), Ix(Fld(Fld(Obn, "component"), "value"), 4), Fld(Obn, "effective"),
              Fld(Fld(Pat, "meta"), "lastUpdated"), Fld(Fld(Fld(Pat, "birthDate"), "extension"), "value"), Fld(Pat, "birthDate")}
 (* operands of the Boolean operators that are FHIR elements: a boolean, a choice-typed boolean, a code, several items *)
-ElemOperands == {Fld(Pat, "active"), Fld(Pat, "deceased"), Fld(Pat, "gender"), Fld(Pat, "name"), Fld(Fld(Pat, "communication"), "preferred")}
+ElemOperands == {Fld(Pat, "active"), Fld(Pat, "deceased"), Fld(Pat, "gender"), Fld(Pat, "name"), Fld(Fld(Pat, "communication"), "preferred"),
+                 Var("tt"), Var("ff"), Var("tf"), Var("none")}
 UrlBirth == <<104, 116, 116, 112, 58, 47, 47, 104, 108, 55, 46, 111, 114, 103, 47, 102, 104, 105, 114, 47, 83, 116, 114, 117, 99, 116, 117, 114, 101, 68, 101, 102, 105, 110, 105, 116, 105, 111, 110, 47, 112, 97, 116, 105, 101, 110, 116, 45, 98, 105, 114, 116, 104, 84, 105, 109, 101>>
 UrlA == <<104, 116, 116, 112, 58, 47, 47, 101, 120, 97, 109, 112, 108, 101, 46, 111, 114, 103, 47, 101, 120, 116, 47, 97>>
 
@@ -304,12 +311,15 @@ StepCat(x, c, cat) ==
             (IF nums THEN Tag({Bin(op, x, v) : op \in {"=", "<", ">", "<=", ">="}, v \in {Var("seven"), Var("neg"), Var("big"), Var("min")}}, "C05")
                           \cup Tag({Call(x, g, <<Bin(op, This, v)>>) : g \in {"where", "select", "all", "exists"}, op \in {"<", ">", "="}, v \in {Var("seven"), Var("neg")}}, "C05")
                           \cup Tag({Bin(op, x, v) : op \in {"+", "-", "*"}, v \in {Var("seven"), Var("neg")}}, "C08")
+             ELSE IF bools THEN Tag({Bin(op, x, v) : op \in {"and", "or", "xor", "implies"}, v \in {Var("tt"), Var("ff")}}
+                                    \cup {Bin(op, v, x) : op \in {"and", "or", "xor", "implies"}, v \in {Var("tt"), Var("ff")}}
+                                    \cup {Call(x, g, <<Bin(op, This, v)>>) : g \in {"where", "select", "all"}, op \in {"and", "or", "implies"}, v \in {Var("tt"), Var("ff")}}, "C06")
              ELSE IF strs THEN Tag({Call(x, g, <<Call(This, h, <<Var("pat")>>)>>) : g \in {"where", "select", "all"}, h \in StrFns1}, "C14")
                                \cup Tag({Bin(op, x, Var("pat")) : op \in {"=", "<", ">"}}, "C05")
              ELSE Tag({Call(x, g, <<v>>) : g \in {"skip", "take"}, v \in {Var("seven"), Var("neg"), Call(Var("ints"), "first", <<>>), Call(Var("ints"), "last", <<>>)}}, OrEmpty(c, "C10")))
        [] OTHER -> Tag({Fld(x, f) : f \in fs}, "C02") \cup Tag({Call(x, "first", <<>>), Call(x, "last", <<>>)}, "C10")
 
-Starts == {Var("uni"), Var("uni1"), Var("looks"), Var("digits"), Var("min"), Var("half"), Pat, Fld(Pat, "name"), Fld(Pat, "telecom"), Fld(Pat, "identifier"), Fld(Fld(Pat, "name"), "given"), Fld(Fld(Pat, "name"), "family"),
+Starts == {Var("tt"), Var("ff"), Var("repl"), Call(Var("repl"), "first", <<>>), Call(Var("repl"), "last", <<>>), Ix(Var("repl"), 1), Var("uni"), Var("uni1"), Var("looks"), Var("digits"), Var("min"), Var("half"), Pat, Fld(Pat, "name"), Fld(Pat, "telecom"), Fld(Pat, "identifier"), Fld(Fld(Pat, "name"), "given"), Fld(Fld(Pat, "name"), "family"),
            Fld(Pat, "contact"), Fld(Pat, "extension"), Fld(Pat, "birthDate"), Fld(Pat, "active"), Fld(Pat, "multipleBirth"), Fld(Pat, "deceased"),
            Fld(Fld(Pat, "telecom"), "rank"), Fld(Fld(Pat, "extension"), "value"), Fld(Fld(Pat, "meta"), "lastUpdated"), Fld(Pat, "gender"),
            Fld(Pat, "id"), Fld(Fld(Pat, "address"), "line"), Fld(Fld(Pat, "name"), "suffix"),
